@@ -241,6 +241,28 @@ package regclient
 //@   in ~
 //@   infunc imageSeenOrWait$
 //@   requires inserts-only-the-key-found-absent: update ==> k == caller.key && caller.seen == nil
+// and the key under which a blob passes the gate names the blob and where it goes, nothing else:
+// the target repository (the target reference without tag and digest) and the blob's digest - not
+// the descriptor's media type, annotations or the tag being copied, which differ between the parts
+// of an image that share the blob.
+//@ callsite imageSeenOrWait(ctx, opt, repo, tag, dig, parents)
+//@   prop C14
+//@   name imageSeenOrWait/blob-gate
+//@   in ~
+//@   infunc \)\.imageCopyBlob$
+//@   requires keyed-by-target-repository-and-digest-only: tag == "" && dig == caller.d.Digest && repo == $ret(CommonName, 0) && opt == caller.opt
+//@ callsite (~/types/ref.Ref).CommonName()
+//@   prop C14
+//@   name CommonName/blob-gate
+//@   in ~
+//@   infunc \)\.imageCopyBlob$
+//@   requires of-the-bare-target-repository: recv == $ret(SetTag, 0)
+//@ callsite (~/types/ref.Ref).SetTag(tag)
+//@   prop C14
+//@   name SetTag/blob-gate
+//@   in ~
+//@   infunc \)\.imageCopyBlob$
+//@   requires strips-the-target-reference: recv == caller.refTgt && tag == ""
 //@ callsite (*RegClient).BlobCopy(ctx, refSrc, refTgt, d, opts)
 //@   prop C14
 //@   name BlobCopy/image-copy
